@@ -137,6 +137,11 @@ def last_of(i: int, j: int) -> bool:
     last = _with_stub(lambda: Sid(e1).get_last("version"))
     if str(last) != PRE + "v" + hi + SUF:
         return fail("get_last-not-greatest")
+    if SUF == "":
+        # a Sid WITHOUT a version of its own (the level above): the same answer
+        top = _with_stub(lambda: Sid(BASE).get_last("version"))
+        if str(top) != PRE + "v" + hi:
+            return fail("get_last-from-a-sid-without-version")
     STUB.items = []
     none = _with_stub(lambda: Sid(e1).get_last("version"))
     if none != Sid() or none:
@@ -198,6 +203,32 @@ def publish(i: int) -> bool:
         return fail("second-publish-not-strictly-increasing")
     if str(again) in STUB.items:
         return fail("version-reused")
+    return True
+
+
+def publish_star(i: int, which: int) -> bool:
+    """
+    The same through a '*' / '>' version Sid and get_next (spil's caches ON): get_next, publish it, get_next again.
+    pre: (i == 48 or i == 56 or i == 57) and 0 <= which <= 1
+    post: _
+    """
+    env.clear_caches()
+    a = DP + chr(i)
+    e1 = PRE + "v" + a + SUF
+    STUB.items = [e1]
+    probe = Sid(PRE + ["*", ">"][which] + SUF)
+    new = _with_stub(lambda: probe.get_next("version"))
+    n = int(a)
+    if n >= 999:
+        return (not new) or fail("beyond-last-version-not-empty")
+    if not new or new.get("version") != _fmt(n + 1):
+        return fail("next-of-star-is-not-successor-of-last")
+    STUB.items = [e1, str(new)]
+    again = _with_stub(lambda: probe.get_next("version"))
+    if n + 1 >= 999:
+        return (not again) or fail("beyond-last-version-not-empty-2")
+    if not again or again.get("version") != _fmt(n + 2):
+        return fail("next-of-star-stale-after-publish")
     return True
 
 
